@@ -491,6 +491,12 @@ class Builder:
 
     def residual_block(self, t):
         c = self.shapes[t][0]
+        last = self.ops[-1] if self.ops else None
+        if last is not None and last.get('out') == t and last['op'] == 'conv' and \
+                not last.get('excluded') and self.rng.random() < 0.5:
+            # the skip is taken right after a BatchNorm: the Conv+BN pair's output has two consumers
+            t = self.bn(t)
+            self.features.add('bn-output-two-consumers')
         a = self.same_shape_conv(t)
         a = self.maybe_bn_act(a)
         b = self.same_shape_conv(a, cout=c if self.rng.random() < 0.6 else None)
